@@ -314,6 +314,7 @@ func c05Labels(d stlDoc) (bool, []string) {
 
 func TestC05(t *testing.T) {
 	runWitnesses(t, "C05")
+	cliConvertCases(t, "C05", "stl")
 
 	// Exhaustive character table: every single-byte graphic character and every diacritic x letter pair, read and written.
 	sub(t, "chartable", func(t *testing.T) {
